@@ -111,7 +111,17 @@ pub fn gen_pattern(kind: usize, r: usize, m: usize, seed: u64) -> Vec<u8> {
 /// Inputs at the top of the domain (ops t10 / t13 `<kind> <n> s<seed>`), cheap to compress:
 ///   kind 0  a run with distinct bytes at both ends: a, b, b, …, b, c
 ///   kind 1  a short random pattern (period 3..40) repeated
+///   kind 2  a run (the compressible bulk) followed by an incompressible tail of t = 20 + seed % 1981 bytes: the
+///           0x13 wrapper value (in-place buffer size) then exceeds the input length and crosses 2^24 for inputs
+///           that are themselves shorter than 16 MiB
+///   kind 3  the reverse: the incompressible bytes first, then the run
 pub fn gen_top(kind: usize, n: usize, seed: u64) -> Vec<u8> {
+    if kind >= 2 {
+        let t = (20 + (seed % 1981) as usize).min(n);
+        let noise = sm_bytes(seed, t);
+        let run = vec![(seed >> 8) as u8; n - t];
+        return if kind == 2 { [run, noise].concat() } else { [noise, run].concat() };
+    }
     if kind == 0 {
         let a = seed as u8;
         let mut v = vec![a.wrapping_add(1); n];
@@ -310,9 +320,16 @@ fn gen_periodic(out: &mut Out, rng: &mut Rng, thorough: bool, few: bool) {
             // the expensive ones: one length that reaches well past the first period
             vec![*rng.pick(&[2 * p, 2 * p + 300, 3 * p + 7])]
         };
+        // thorough sweep over every period: beyond 600 the first period costs ~p^2/2 comparisons per pass, so each
+        // period goes to one of the two formats (alternating), and every 64th to both
+        let saved = out.ops.clone();
+        if thorough && !few && p > 600 && p % 64 != 0 && out.ops.len() == 2 {
+            out.ops = vec![saved[p % 2]];
+        }
         for n in lens {
             out.compress(p, &periodic(&pattern, n));
         }
+        out.ops = saved;
     }
 }
 
@@ -374,7 +391,27 @@ fn gen_cap_break(out: &mut Out, rng: &mut Rng, lz13: bool, thorough: bool) {
                 }
             }
         }
-        if !thorough {
+        if thorough {
+            // the full grid is 648 inputs of 10-30 KB with random blocks (search cost ~b^2/2 per pass, two passes,
+            // two profiles): thorough takes every (block, variant) pair three times with random j, k, r, and
+            // every k for the effective blocks
+            rng.shuffle(&mut combos);
+            let mut picked: Vec<(usize, usize, usize, usize, usize)> = Vec::new();
+            for &b in &[2048usize, 4096, 4097, 8192, 1024, 1365] {
+                for variant in 0..3 {
+                    let n = if b == 8192 { 1 } else { 3 };
+                    picked.extend(combos.iter().filter(|c| c.0 == b && c.3 == variant).take(n).cloned());
+                }
+            }
+            for &b in &[2048usize, 4096] {
+                for k in 1..=3 {
+                    for j in 1..=3 {
+                        picked.extend(combos.iter().filter(|c| c.0 == b && c.1 == j && c.2 == k && c.3 == 0 && c.4 >= 4096).take(1).cloned());
+                    }
+                }
+            }
+            combos = picked;
+        } else {
             // the search cost of a random block is ~b^2/2 per pass: quick keeps to a few cheap combinations
             rng.shuffle(&mut combos);
             let mut picked: Vec<(usize, usize, usize, usize, usize)> = Vec::new();
@@ -596,7 +633,8 @@ fn gen_header_straddle(out: &mut Out, rng: &mut Rng, thorough: bool) {
     }
     for (k, d, reverse) in plan {
         let n = if reverse { 65536 * k + d } else { 65536 * k - d };
-        let t = rng.range(900, 1600) as usize; // incompressible part: overhang ~ t/8 > 64
+        // incompressible part: overhang ~ t/8 + 9 > 64 (the sweep uses shorter tails: the search cost is 4096 t)
+        let t = if thorough { rng.range(520, 700) } else { rng.range(900, 1600) } as usize;
         let q = rng.range(1, 9) as usize;
         let pat = rng.bytes(q);
         let run: Vec<u8> = (0..n - t).map(|i| pat[i % q]).collect();
@@ -616,7 +654,18 @@ fn gen_top_of_domain(out: &mut Out, rng: &mut Rng, op: &'static str, thorough: b
     // faults on 128 MiB arrays in the driver); its neighbours and the >= 2^24 tie-only cases run in thorough
     let k = rng.below(2) as usize;
     out.top(op, k, B - 1, rng.next());
+    // compressible bulk + incompressible tail just below 16 MiB: the LZ13 wrapper value (in-place buffer size)
+    // crosses 2^24 although the input is inside the domain
+    if op == "t13" {
+        out.top(op, 2, B - *rng.pick(&[10usize, 160]), rng.next());
+    }
     if thorough {
+        for &k in &[1usize, 10, 160, 1000] {
+            out.top(op, 2, B - k, rng.next());
+            if k == 10 || k == 1000 {
+                out.top(op, 3, B - k, rng.next());
+            }
+        }
         out.top(op, 1 - k, B - 2, rng.next());
         out.top(op, rng.below(2) as usize, B, rng.next());
         out.top(op, rng.below(2) as usize, B + 1, rng.next());
@@ -1062,7 +1111,7 @@ pub fn gen_for(pid: Option<&str>, seed: u64, tier: &str) -> Vec<String> {
     match pid {
         Some("C08") => {
             out.ops = vec!["c10"];
-            gen_compress(&mut out, &mut rng, thorough, 6);
+            gen_compress(&mut out, &mut rng, thorough, 4);
             gen_periodic(&mut out, &mut rng, thorough, true);
             gen_cap_break(&mut out, &mut rng, false, thorough);
             gen_thresholds(&mut out, &mut rng, thorough);
@@ -1082,7 +1131,8 @@ pub fn gen_for(pid: Option<&str>, seed: u64, tier: &str) -> Vec<String> {
         }
         Some("C10") => {
             out.ops = vec!["b10", "b13"];
-            gen_compress(&mut out, &mut rng, thorough, 3);
+            out.shrink = 2; // two ops, two profiles
+            gen_compress(&mut out, &mut rng, thorough, 2);
             gen_periodic(&mut out, &mut rng, thorough, false);
             gen_overlap(&mut out, &mut rng, thorough);
             gen_thresholds(&mut out, &mut rng, thorough);
